@@ -466,6 +466,43 @@ def partial_emitters(ctx, P):
                       bool(zero) and not badz and okf, function=b.path)
 
 
+def running_offset_emitters(ctx, P):
+    """Generators that hand out a prepared header in pieces keep a running offset (`header_written`): the piece copied out starts
+    at that offset and the offset advances by what was copied (sibling rule over the fixed-length literal and compressed generators)."""
+    from rules.common import single_defs, resolve_value
+    n = 0
+    for p, r in sorted(ctx.f.bodies.items()):
+        if '::tests::' in p or not p.endswith('as std::io::Read>::read'):
+            continue
+        b = ctx.wrap(r)
+        adv = [(i, k, s_) for i, k, s_ in b.stmts(lambda s: s['d']['pr'] and s['d']['pr'][-1].endswith('.header_written'))]
+        if not adv:
+            continue
+        n += 1
+        ctx.functions.add(p)
+        defs = single_defs(b)
+        ok_src = False
+        for i, t in b.calls(r'copy_from_slice$'):
+            # source operand: &self.header[a..b]  -> Index::index(header, Range{start, end}); start must derive from header_written
+            o = t['args'][1]
+            for _ in range(6):
+                k, v = resolve_value(b, o, defs)
+                if k == 'call' and v['f'].get('fn', '').endswith('ops::Index::index'):
+                    kk, rv = resolve_value(b, v['args'][1], defs)
+                    if kk == 'rv' and rv['k'] == 'agg' and rv['o']:
+                        ok_src = has_origin(b.operand_origins(rv['o'][0]), r'field:.*\.header_written$') and 'RangeTo' not in str(rv.get('adt', '')) + str(rv.get('v', ''))
+                    break
+                if k == 'rv' and v['k'] == 'ref':
+                    o = dict(l=v['p']['l'], pr=[x for x in v['p']['pr'] if x != '*'], mv=0)
+                    continue
+                break
+        ok_adv = any(has_origin(b.operand_origins(o), r'call:.*::min$|field:.*\.header_written$') for i, k, s_ in adv for o in s_['r'].get('o', []))
+        ty = p[1:].split(' as ')[0].split('::')[-1]
+        ctx.check('%s:S17-6:running-offset:%s' % (P, ty), 'R-sib', '%s::read copies the header piece starting at header_written and advances header_written by the copied amount' % ty,
+                  ok_src and ok_adv, function=p)
+    ctx.floor(P + ':S17-6:floor', 'generators with a running header offset', n, 2)
+
+
 def s17_4(ctx, P):
     b = ctx.body('packet::packet_sum::Packet::from_reader')
     if b:
@@ -478,6 +515,7 @@ def s17_4(ctx, P):
 def run(ctx):
     P = 'C17'
     partial_emitters(ctx, P)
+    running_offset_emitters(ctx, P)
     s17_1(ctx, P)
     s17_2(ctx, P)
     s17_3(ctx, P)
